@@ -69,7 +69,8 @@ func liveLock(t *testing.T, r *vrep.Report, backend string, async bool, gateKey 
 		return
 	}
 	// let the other prewrites land
-	for i := 0; i < 200 && env.Victim.Net.Inflight() > 1; i++ {
+	// (a generous watchdog, not a verdict: on a loaded machine the primary's prewrite can take far longer than the usual millisecond)
+	for i := 0; i < 20000 && env.Victim.Net.Inflight() > 1; i++ {
 		time.Sleep(time.Millisecond)
 	}
 	s := startTS.Load()
